@@ -158,6 +158,9 @@ func runC01(run *core.Run) {
 		g := &gen.DSLGen{R: r}
 		d := g.Doc(false)
 		l := &gen.Layout{R: r, Wild: r.Intn(5) != 0, CRLF: r.Intn(4) == 0, Comments: r.Intn(2) == 0}
+		if i%97 == 5 {
+			l.Long = 66000
+		}
 		txt := d.Render(l)
 		if !roundTrip(run, txt, "G2") {
 			run.Count("g2_texts_outside_domain", 1)
